@@ -76,6 +76,26 @@ func (e *ErrProv) ReturnOrigins(fn *ssa.Function) map[string]ErrOrigin {
 	return out
 }
 
+// ReturnOriginsWhere: origins of the error results of those returns of fn that keep says
+// to look at (not memoised: the selection belongs to the caller).
+func (e *ErrProv) ReturnOriginsWhere(fn *ssa.Function, keep func(*ssa.Return) bool) map[string]ErrOrigin {
+	out := oset{}
+	e.busy[fn] = true
+	Instrs(fn, func(in ssa.Instruction) {
+		ret, ok := in.(*ssa.Return)
+		if !ok || !keep(ret) {
+			return
+		}
+		for _, v := range ReturnValues(ret) {
+			if IsError(v.Type()) {
+				out.addAll(e.valueOrigins(v, in, fn, 0, map[ssa.Value]bool{}))
+			}
+		}
+	})
+	delete(e.busy, fn)
+	return out
+}
+
 func pkgOfCallee(c *ssa.CallCommon) (string, string) {
 	if c.IsInvoke() {
 		n := c.Method.Name()
